@@ -29,6 +29,7 @@ def run(idx, rep, tier):
     rep.rule("R5", "next() cannot fault after the reader loop")
     rep.rule("R6", "yielded lines are the reader's line or a fresh projection; collect stores a copy")
     rep.rule("R7", "each reader line is yielded or (when kept) appended to unmatched, never both, and the stop test follows")
+    rep.rule("R8", "the group-level siblings collect_paths/fast_forward_paths/next_paths follow one run protocol and end the same way for every member outcome")
     r1_r2(idx, rep)
     r3(idx, rep)
     r4_r5_r7(idx, rep)
@@ -62,6 +63,9 @@ def run(idx, rep, tier):
     # whether unmatched lines are kept at all is the unmatched-mode value (the generator table above takes it as an input)
     from . import c15
     c15.mode_value_tables(idx, rep, "R7", classes={"UnmatchedMode"})
+    # the same three ways of driving, one level up: whatever a member does (loads, runs, raises), the three group methods go through the same
+    # steps and end the same way (one protocol judged for all three; what each does per member is R1-R7)
+    c08.serial(idx, rep, "R8", aspects=("protocol", "outcome"))
     rep.stats["exhaustive"] = True
 
 
@@ -173,19 +177,21 @@ def unmatched_step(idx, rep):
     rep.analysed(fi, idx.method("CsvPath", "limit_collection"))
     lines = [["1", "2", "3"], [], ["4"]]
     ends = {}
-    for collecting in (False, True):
-        it = Interp(idx, types={"self": "CsvPath"}, unknown_calls="residual", inline_all={"CsvPath"}, inline={"CsvPath.limit_collection", "CsvPath.limit_collection_to"},
-                    domains={"self.scanner": [Obj("scanner")]},
-                    handlers={"self._next_line": lambda i, c, r, a, k: [list(x) for x in lines], "self._consider_line": lambda i, c, r, a, k: False,
-                              "self.finalize": lambda i, c, r, a, k: i.record_call("finalize")})
-        store = {"self.stopped": False, "self.unmatched": None, "self.will_run": True, "self.collecting": collecting, "self.unmatched_available": True,
-                 "self." + K.names(idx)["limit"]: [1], "self.limit_collection_to": [1], "self.line_monitor.physical_end_line_count": 3,
-                 "self.line_monitor.physical_line_number": 1, "self.identity": "id"}
-        ps = it.run_all(fi, args={"csvpath": None}, store=store)
-        ends[collecting] = sorted({(p.result[0], p.result[1] if p.result[0] == "raise" else None, bool(p.calls("finalize")), p.final_store.get("self.stopped")) for p in ps})
+    for limit in ([1], [-1], [0, -3]):
+      for collecting in (False, True):
+          it = Interp(idx, types={"self": "CsvPath"}, unknown_calls="residual", inline_all={"CsvPath"}, inline={"CsvPath.limit_collection", "CsvPath.limit_collection_to"},
+                      domains={"self.scanner": [Obj("scanner")]},
+                      handlers={"self._next_line": lambda i, c, r, a, k: [list(x) for x in lines], "self._consider_line": lambda i, c, r, a, k: False,
+                                "self.finalize": lambda i, c, r, a, k: i.record_call("finalize")})
+          store = {"self.stopped": False, "self.unmatched": None, "self.will_run": True, "self.collecting": collecting, "self.unmatched_available": True,
+                   "self." + K.names(idx)["limit"]: list(limit), "self.limit_collection_to": list(limit), "self.line_monitor.physical_end_line_count": 3,
+                   "self.line_monitor.physical_line_number": 1, "self.identity": "id"}
+          ps = it.run_all(fi, args={"csvpath": None}, store=store)
+          ends.setdefault(collecting, set()).update({(p.result[0], p.result[1] if p.result[0] == "raise" else None, bool(p.calls("finalize")), p.final_store.get("self.stopped")) for p in ps})
+    ends = {k: sorted(v, key=str) for k, v in ends.items()}
     ok = ends[True] == ends[False] and all(e[0] == "return" for e in ends[True])
     rep.check(ok, "R2", f"{fi.file}::CsvPath.next keeping unmatched lines cannot end the run",
-              f"three lines that do not match ([1,2,3], a blank line, [4]) under unmatched-mode keep with collect(1): a collecting run ends {ends[True]}, "
+              f"three lines that do not match ([1,2,3], a blank line, [4]) under unmatched-mode keep with collect(1), collect(-1) and collect(0, -3): a collecting run ends {ends[True]}, "
               f"a non-collecting run ends {ends[False]} (outcome, exception, finalized, stopped); documented: the same — collect() must not raise where next() and fast_forward() complete",
               K.where(fi, fi.node))
 
